@@ -38,4 +38,40 @@ def net_value(seed, tier):
                         'net_value_reported': got, 'sum_over_registered_assets': expect})
             if len(wit) > 2:
                 break
-    return n, wit, {'models': n, 'models_with_equal_names': dup_models}
+    # batches inside batches (legal: a Batch is a Part; made by a custom PartGenerator): "a batch is worth
+    # the sum of its parts", and source / sink accounting follows
+    from simprocesd.model.factory_floor import Part, Batch, PartGenerator
+
+    def worth(p):
+        return sum(worth(x) for x in p.parts) if isinstance(p, Batch) else p.value
+    nested = 0
+    for t in range(n // 3):
+        shape = rng.choice([[[3, 4], 5], [[1], [2, [6]]], [[-2, 7]], [4, [0, 9], 1]])
+
+        def build(sh, name):
+            if isinstance(sh, list):
+                return Batch(name, [build(x, f'{name}.{i}') for i, x in enumerate(sh)])
+            return Part(name, sh)
+
+        class NestGen(PartGenerator):
+            def generate_part_helper(self, part_name, part_counter):
+                return build(shape, part_name)
+        s = System()
+        src = Source('src', NestGen('N'), cycle_time=1, starting_parts=rng.choice([1, 2, 3]))
+        buf = Buffer('buf', [src])
+        snk = Sink('snk', [buf], collect_parts=True)
+        s.simulate(6, print_summary=False)
+        nested += 1
+        total = 0
+        for b in snk.collected_parts:
+            if b.value != worth(b):
+                wit.append({'kind': 'batch-value', 'shape': repr(shape), 'batch_value_reported': b.value, 'sum_of_contained_parts': worth(b)})
+                break
+            total += worth(b)
+        else:
+            if snk.value != total or src.value != -total:
+                wit.append({'kind': 'batch-accounting', 'shape': repr(shape), 'sink_value': snk.value, 'source_value': src.value,
+                            'worth_of_received_parts': total})
+        if len(wit) > 2:
+            break
+    return n, wit, {'models': n, 'models_with_equal_names': dup_models, 'nested_batch_models': nested}
